@@ -1,6 +1,7 @@
 package core
 
 import (
+	"strings"
 	"go/token"
 
 	"golang.org/x/tools/go/ssa"
@@ -186,6 +187,14 @@ func (e *ErrEngine) base(v ssa.Value, at *ssa.BasicBlock, env errEnv, depth int,
 			}
 			if e.P.Scope != nil && a.Pkg != nil && !e.stored[a] && e.inScopePkg(a.Pkg) {
 				return CNonNil // package-level sentinel initialised once (errors.New / struct value)
+			}
+			// exported error sentinels of the standard library (io.ErrUnexpectedEOF, net.ErrClosed, ...): non-nil
+			// values distinct from io.EOF
+			if a.Pkg != nil && strings.HasPrefix(a.Name(), "Err") {
+				switch a.Pkg.Pkg.Path() {
+				case "io", "net", "os", "errors", "context", "io/fs", "bufio", "bytes", "strconv":
+					return CNonNil
+				}
 			}
 			return CAll
 		case *ssa.Alloc:
